@@ -3,6 +3,7 @@ package main
 import (
 	"bufio"
 	"encoding/json"
+	"io"
 	"os"
 	"sync"
 
@@ -23,6 +24,9 @@ type tracer struct {
 	n     int
 	runs  int
 	off   bool
+	mark  int64
+	caseN int
+	over  bool
 }
 
 func newTracer(path string) (*tracer, error) {
@@ -88,6 +92,10 @@ func (t *tracer) install() {
 			nx += k
 		}
 		t.n++
+		if t.caseN++; t.caseN > 100000 {
+			t.over, t.off = true, true
+			return
+		}
 		t.enc.Encode(stepEv{"step", t.vmid(vm), id, fi, ip, ugo.OpcodeNames[op], a, nx, sp, nh})
 	}
 	ugo.VerifSyncFn = func(vm *ugo.VM, point string) {
@@ -111,7 +119,25 @@ func (t *tracer) install() {
 	}
 }
 
-func (t *tracer) pause(b bool) { t.mu.Lock(); t.off = b; t.mu.Unlock() }
+// pause switches recording off and on around the runs of one program.  A program that runs away (the
+// families' programs take a few thousand steps) is not recorded: past 100000 events the recording stops
+// and the events of that program are taken out of the file again - such a run is reported by the replay
+// itself (watchdog), and an endless trace would only keep the trace validation busy.
+func (t *tracer) pause(b bool) {
+	t.mu.Lock()
+	defer t.mu.Unlock()
+	if !b {
+		t.w.Flush()
+		t.mark, _ = t.f.Seek(0, io.SeekCurrent)
+		t.caseN, t.over = 0, false
+	} else if t.over {
+		t.w.Flush()
+		t.f.Truncate(t.mark)
+		t.f.Seek(t.mark, io.SeekStart)
+		t.over = false
+	}
+	t.off = b
+}
 
 func (t *tracer) uninstall() {
 	ugo.VerifStepFn = nil
